@@ -23,12 +23,14 @@ Fixpoint field_matches (st : sset) (s : fschema) (f : field) (item : bool) : boo
   | FArray it _ _ =>
       negb item && (match f_card f with CRepeated => true | _ => false end) && field_matches st it f true
   | FMap it _ _ =>
-      negb item &&
-      (match f_card f with
-       | CMap _ => field_matches st it f true
-       | CRepeated => false
-       | _ => kind_eqb (f_kind f) KMessage && str_eqb (value_full f) s_Struct
-       end)
+      (* google.protobuf.Struct is read as a map of any, also as an array item or a map value *)
+      let is_struct := kind_eqb (f_kind f) KMessage && str_eqb (value_full f) s_Struct in
+      if item then is_struct
+      else match f_card f with
+           | CMap _ => field_matches st it f true
+           | CRepeated => false
+           | _ => is_struct
+           end
   | _ =>
       (item || (match f_card f with CRepeated | CMap _ => false | _ => true end)) &&
       match s with
@@ -157,10 +159,15 @@ Definition prop_class (st : sset) (m : msgd) (pf : prop * option field) : N :=
       end
   end.
 
+(* propSet.asMap is keyed by JSON name: of several properties with one name, RangeValues reaches
+   only the last one (GetValue looks the name up in the map) *)
+Definition last_named (pfs : list (prop * option field)) (pf : prop * option field) : prop * option field :=
+  fold_left (fun acc q => if str_eqb (p_json (fst q)) (p_json (fst pf)) then q else acc) pfs pf.
+
 (* (class of the root property set, worst class over the properties) *)
 Definition codec_classes (st : sset) (m : msgd) (r : root) : N * N :=
   match new_prop_set D st r m with
-  | Ok pfs => (0%N, fold_right (fun pf acc => worst acc (prop_class st m pf)) 0%N pfs)
+  | Ok pfs => (0%N, fold_right (fun pf acc => worst acc (prop_class st m (last_named pfs pf))) 0%N pfs)
   | o => (cls o, cls o)
   end.
 
